@@ -50,7 +50,42 @@ def generate(rng, tier):
         cases.append(dict(c, exact=True))
         if rng.random() < 0.6:
             cases.append(dict(c, exact=False, family=fam + "/float"))
+    # precision limit: float segments aimed at a corner of a rectangle with generic float corners; those for which the clip against one
+    # edge lands an ulp outside the adjacent edge make the loop run to its failsafe (selected here by counting the passes of a plain
+    # float Cohen-Sutherland loop - a selection of inputs only, the judgement is the exact one)
+    want = 12 if tier == "quick" else 200
+    tries = 0
+    while want > 0 and tries < 60000:
+        tries += 1
+        xmin, ymin = rng.choice([0.1, 1 / 7, 1 / 3, 0.7, -0.3]), rng.choice([0.1, 1 / 7, 1 / 3, -1 / 9])
+        xmax, ymax = xmin + rng.choice([8.5, 3.3, 1 / 3 + 7]), ymin + rng.choice([1.0, 2.7, 5.1])
+        cx, cy = rng.choice([(xmin, ymin), (xmax, ymax), (xmin, ymax), (xmax, ymin)])
+        dx, dy = rng.uniform(-3, 3), rng.uniform(-7, 7)
+        t1, t2 = rng.uniform(0.1, 1.0), rng.uniform(0.1, 1.0)
+        seg = [cx - t1 * dx, cy - t1 * dy, cx + t2 * dx, cy + t2 * dy]
+        if _passes(seg, (xmin, xmax, ymin, ymax)) >= 4:
+            want -= 1
+            cases.append({"seg": [F(v) for v in seg], "rect": [F(xmin), F(xmax), F(ymin), F(ymax)], "exact": False, "family": "precision-limit/through-corner", "style": 0})
     return cases
+
+def _passes(seg, rect):
+    """number of clipping passes a plain float Cohen-Sutherland loop makes (capped at 6); used only to pick inputs"""
+    x1, y1, x2, y2 = seg; xmin, xmax, ymin, ymax = rect
+    def code(x, y): return (x < xmin) | ((x > xmax) << 1) | ((y < ymin) << 2) | ((y > ymax) << 3)
+    for it in range(6):
+        c1, c2 = code(x1, y1), code(x2, y2)
+        if (c1 == 0 and c2 == 0) or (c1 & c2): return it
+        c = c1 or c2
+        try:
+            if c & 1: y, x = y1 + (y2 - y1) * (xmin - x1) / (x2 - x1), xmin
+            elif c & 2: y, x = y1 + (y2 - y1) * (xmax - x1) / (x2 - x1), xmax
+            elif c & 4: x, y = x1 + (x2 - x1) * (ymin - y1) / (y2 - y1), ymin
+            else: x, y = x1 + (x2 - x1) * (ymax - y1) / (y2 - y1), ymax
+        except ZeroDivisionError:
+            return it
+        if c == c1: x1, y1 = x, y
+        else: x2, y2 = x, y
+    return 6
 
 def run_impl(c):
     conv = (lambda v: v) if c["exact"] else float
